@@ -137,6 +137,17 @@ Section Crash.
     split; [split; [apply step_lin_any; assumption | exact A] | exact B].
   Qed.
 
+  (* the content of the crash clause: the same request run to completion, presenting
+     an ID of D, gets a dead answer (a step in which the process stops shows
+     nothing by the model's construction) *)
+  Theorem dead_answer_completed w r k : LNx (w_st w) -> rq_plan r = [] ->
+    presents w r = CKey k -> D k -> dead_answer (snd (step w (HReq (nocrash r)))).
+  Proof.
+    intros Hl Hpl Hpr Hk.
+    destruct (step_lin_any w (HReq (nocrash r)) Hl Hpl) as [_ H].
+    exact (H (nocrash r) k eq_refl Hpr Hk).
+  Qed.
+
   Lemma LNx_resolves s k : LNx s -> D k ->
     L s k = None \/ exists r t, L s k = Some r /\ r_ref r = Some t /\ D t.
   Proof. intros [b Hl] Hk. exact (LNb_resolves b D s k Hl Hk). Qed.
